@@ -149,6 +149,9 @@ impl Feig {
 
         // Sadly the terminal_id is a int, but we communicate it as a string...
         let terminal_id = config.terminal_id.parse::<usize>()?;
+        if terminal_id > 99_999_999 {
+            bail!("The terminal id has more than eight digits")
+        }
         let request = packets::SetTerminalId {
             password: config.feig_config.password,
             terminal_id: Some(terminal_id),
